@@ -4,6 +4,7 @@ from lcmsa import rules_bellman as bel
 from lcmsa import rules_kernel as ker
 from lcmsa import rules_per as per
 from lcmsa import rules_qa as qa
+from lcmsa import rules_sim as sim
 
 TRUSTED_COMMON = [
     "CPython ast module (parsing)",
@@ -100,3 +101,15 @@ prop("C19", [ker.ker_dispatchers, ker.ker_wrappers, ker.ker_functools],
      "keyword/positional wrappers with their guards agree with reference forms (KER).")
 prop("C20", [ker.ker_logsumexp],
      "Max-shifted segment log-sum-exp and the scale in/out structure agree with their reference forms (KER).")
+
+PROPERTIES["C02"]["rules"] += [sim.row_domains, sim.sim_flow]
+PROPERTIES["C02"]["explanation"] += " Row domains: every array derived from the (agent x sparse choice) rows is selected by the segment arg-max before it is stored or passed on (R4.AX5); value/policy wiring and unravel shapes (R15, AX6)."
+PROPERTIES["C03"]["rules"] += [sim.sim_flow]
+PROPERTIES["C03"]["explanation"] += " Def-use obligations of the period loop (R15): same-iteration states/choices/period/params feed next_state; period 0 = initial states; prefix stripping and nothing else."
+PROPERTIES["C04"]["rules"] += [sim.key_rules]
+PROPERTIES["C04"]["explanation"] += " Key typestate (R6): single seeded source, no ambient entropy, carried key advanced by each period's split, per-variable keys from the same split, stored results independent of the current key."
+PROPERTIES["C08"]["rules"] += [sim.data_space_layout, sim.row_domains]
+PROPERTIES["C08"]["explanation"] += " Product layout of the data space (R5.LAY1-2): states repeated per combination, choices tiled per agent, one mask for rows and segment ids; row domains (R4.AX5)."
+PROPERTIES["C13"]["rules"] += [sim.sim_flow]
+PROPERTIES["C13"]["explanation"] += " Flow of the per-period results into the panel, targets computed from (panel, model.functions, params of the call) (R15)."
+PROPERTIES["C06"]["rules"] += [sim.sim_flow]
